@@ -397,10 +397,24 @@ func (p *c19) build(seed uint64, tier string) []C19Scenario {
 
 func (p *c19) Gen(seed uint64, i int, tier string) (any, bool) {
 	l := p.build(seed, tier)
-	if i >= len(l) {
+	// thorough: the whole enumeration eight times over, each round with its own draws for
+	// everything the enumeration leaves open (client configuration swarm, timeouts, contexts,
+	// schedules)
+	rounds := 1
+	if tier == "thorough" {
+		rounds = 8
+	}
+	if len(l) == 0 || i >= len(l)*rounds {
 		return nil, false
 	}
-	s := l[i]
+	if r := i / len(l); r > 0 {
+		l2 := p.build(sim.Derive(seed, 19, 777, uint64(r)), tier)
+		if i%len(l) >= len(l2) {
+			return nil, false
+		}
+		l = l2
+	}
+	s := l[i%len(l)]
 	return &s, true
 }
 
@@ -598,7 +612,7 @@ func (p *c19) Shrink(scAny any) []any {
 
 func (p *c19) Info() PropInfo {
 	return PropInfo{
-		Rule: "enumeration: {DialWithContext, DialAndSend, a second DialWithContext on a connected Client whose first connection refuses, loses or garbles its QUIT; the caller's context cancelled by another task 0.15..2.5 ms into the call; the n-th SetDeadline on the connection failing} x TLS policy {mandatory, opportunistic, none} x auth type x failing step (greeting, EHLO, EHLO+HELO, STARTTLS missing/refused, TLS handshake failure kinds, post-TLS EHLO, AUTH missing/mechanism missing/bad password/each AUTH step, NOOP, MAIL, each RCPT, DATA, end-of-data, RSET, QUIT) x failure kind {421, 451, 550, 554, disconnect, garbage reply, reply-then-close}, each also combined with a second fault on the clean-up path (QUIT refused / dropped / garbled, RSET refused / dropped; thorough: all pairs, quick: every fifth), and connections made through the fallback port; the same steps through go-mail's own dialers (no WithDialContextFunc): net.Dialer under the three STARTTLS policies, tls.Dialer for implicit TLS (handshake failure kinds, a peer that speaks plain SMTP), WithSSLPort(true) with a failing first dial, and QuickSend; a case is non-trivial when a failure is injected; distinct = distinct (op, policy, auth, step, rule, error class)",
+		Rule: "enumeration (thorough: eight rounds of it, each with fresh draws for what the enumeration leaves open): {DialWithContext, DialAndSend, a second DialWithContext on a connected Client whose first connection refuses, loses or garbles its QUIT; the caller's context cancelled by another task 0.15..2.5 ms into the call; the n-th SetDeadline on the connection failing} x TLS policy {mandatory, opportunistic, none} x auth type x failing step (greeting, EHLO, EHLO+HELO, STARTTLS missing/refused, TLS handshake failure kinds, post-TLS EHLO, AUTH missing/mechanism missing/bad password/each AUTH step, NOOP, MAIL, each RCPT, DATA, end-of-data, RSET, QUIT) x failure kind {421, 451, 550, 554, disconnect, garbage reply, reply-then-close}, each also combined with a second fault on the clean-up path (QUIT refused / dropped / garbled, RSET refused / dropped; thorough: all pairs, quick: every fifth), and connections made through the fallback port; the same steps through go-mail's own dialers (no WithDialContextFunc): net.Dialer under the three STARTTLS policies, tls.Dialer for implicit TLS (handshake failure kinds, a peer that speaks plain SMTP), WithSSLPort(true) with a failing first dial, and QuickSend; a case is non-trivial when a failure is injected; distinct = distinct (op, policy, auth, step, rule, error class)",
 		Assumptions: []string{"the connection handed out by the dial function is the only transport resource; Close on it is what 'closed' means (for TLS-wrapped connections the underlying simulated connection's Close counts)",
 			"calls that never return are not judged here (C17)"},
 		Real:       []string{"github.com/wneessen/go-mail (Client, smtp.Client, all SASL mechanisms)", "net/textproto", "crypto/tls on both ends"},
